@@ -11,10 +11,12 @@ Two kinds of cases:
 from __future__ import annotations
 
 import asyncio
+import inspect
 import itertools
 import json
 import os
 import sys
+import threading
 
 sys.path.insert(0, os.path.dirname(os.path.abspath(__file__)))
 import core
@@ -27,55 +29,153 @@ from prompt_toolkit.buffer import Buffer, ValidationState
 from prompt_toolkit.document import Document
 from prompt_toolkit.enums import EditingMode
 from prompt_toolkit.filters import Condition
-from prompt_toolkit.history import InMemoryHistory
+from prompt_toolkit.history import FileHistory, InMemoryHistory
 from prompt_toolkit.input import DummyInput, create_pipe_input
 from prompt_toolkit.output import DummyOutput
-from prompt_toolkit.validation import ValidationError, Validator
+from prompt_toolkit.validation import ThreadedValidator, ValidationError, Validator
 
 ID = "C14"
 DRIVER = "drv_c14"
-PROPS = ["Ptk.Props.C14", "Ptk.Props.C14Scan"]
+PROPS = ["Ptk.Props.C14", "Ptk.Props.C14Scan", "Ptk.Props.C14Val", "Ptk.Props.C14Load", "Ptk.Props.C14Gen", "Ptk.Props.C14Yank", "Ptk.Props.C14Fix"]
 LEVEL_TEXT = ("Lean 4 theorems over an executable model of Buffer history navigation (history_backward/forward with "
               "the prefix filter, go_to_history, auto_up/down), the working-copy mechanism incl. the asynchronous "
-              "loader, validate / validate_and_handle / append_to_history / reset and the PromptSession accept glue: "
-              "navigation never changes the stored history, edits stay in their working copy, back k / forward k "
-              "returns, prefix hits, reject leaves everything but the cursor, accept appends exactly once, the next "
-              "prompt starts from history + [default]; the model is tied to /repo on every run by a differential "
-              "correspondence (method level with an item-by-item gated loader, and key level over several prompts of "
-              "one PromptSession in emacs and vi mode) and the property oracle; two known findings are excluded by "
+              "loader racing with navigation AND edits, validation_state / validation_error with every site that "
+              "resets them, validate / validate_and_handle / append_to_history / reset (also append_to_history=True), "
+              "the validate-while-typing coroutine (_validate_async under _only_one_at_a_time, cut at its await, for "
+              "validators that suspend or not) interleaved with everything else, the PromptSession glue (accept, "
+              "accept_default, multiline Enter vs Esc-Enter, operate-and-get-next, background tasks cancelled at exit), "
+              "and yank-nth-arg / yank-last-arg: navigation never changes the stored history, edits (also made while "
+              "the history is still loading) stay in their working copy, back k / forward k returns, prefix hits, for "
+              "EVERY schedule of edits / validator progress / accept the accepted text is the text on screen and the "
+              "validator passes exactly it (a cached verdict is always the verdict of the current text; stale "
+              "verdicts are discarded), reject leaves everything but the cursor of a fresh verdict and stores the "
+              "validator's error, accept appends exactly once, yank reads the history and writes only the current "
+              "working copy, the next prompt starts from history + [default] (operate-and-get-next included); the "
+              "model is tied to /repo on every run by regenerated tables (key -> handler map of emacs / vi / multiline "
+              "prompts, complete-while-typing exclusivity, the yank word pattern, the end-of-history count), a "
+              "differential correspondence (method level with an item-by-item gated loader and gated / really "
+              "threaded validators under manual and natural scheduling; key level over several prompts of one "
+              "PromptSession in emacs and vi mode) and the property oracle; two known findings are excluded by "
               "explicit hypotheses (history not loaded yet at accept; stale filter after go_to_history)")
 LEVEL_NOTE = ("trusted: Lean kernel, axioms propext/Classical.choice/Quot.sound only; the hand-written model "
-              "(validated by the correspondence, not proved equal to the Python); validators that look at the text only")
-RULE = ("exhaustive: every history of up to N entries over {a, ab, b, a\\nb} x typed prefix in {'', a, ab} x prefix "
-        "search on/off x every ordered pair of 17 navigation/edit/accept ops (all state printed after every op); "
-        "then seeded random method-level sequences (up to 30 ops, loader items interleaved one by one, scripted "
-        "validators rejecting at positions -2..len+7, validate-while-typing on/off, several accept/reset cycles), "
-        "seeded random key-level sessions in emacs mode (1-4 prompts on one PromptSession, numeric arguments incl. 0 "
-        "and negative, accept_default) and in vi mode (Esc/i/a, k/j with counts, nG, Enter in both modes); a "
-        "case is non-trivial when the history is non-empty and it contains a history navigation op")
+              "(validated by the correspondence, not proved equal to the Python); validators that look at the text "
+              "only; asyncio atomicity between awaits (the validator coroutine is cut at its single await)")
+RULE = ("exhaustive: (1) every history of up to N entries over {a, ab, b, a\\nb} x typed prefix in {'', a, ab} x prefix "
+        "search on/off x every ordered pair of 17 navigation/edit/accept ops; (2) the same histories only partly "
+        "loaded (j < n items delivered) x every ordered pair of 12 ops incl. a loader item; (3) asynchronous "
+        "validation: gated validator, validate-while-typing on, every sequence of K ops from {ins x, ins a, delb, "
+        "left, task start, validation done, accept keep/reset, validate, history_backward, vwt off, loop turn} after "
+        "nothing typed / 'a' typed / its validation in flight; (4) yank: histories <= 2 lines over 4 lines with quotes "
+        "x every triple of 7 ops; (5) the word splitter against the real _QUOTED_WORDS_RE on all strings over "
+        "{a, space, \", ', \\n, b} up to length L; (6) the candidate go_to_history repair applied from outside: every "
+        "triple of 7 ops followed by back 1 / forward 1; all state printed after every op. Then a FileHistory family "
+        "(entries with line breaks, \\r, form feeds, '+' / '#' prefixes accepted and read back by a new FileHistory "
+        "object), seeded random "
+        "method-level sequences (up to 30 ops, loader items interleaved, scripted validators rejecting at positions "
+        "-2..len+7, validate-while-typing toggled, gated validators under natural scheduling, reset with "
+        "append_to_history, yank), random asynchronous schedules (gated coroutine and a real ThreadedValidator whose "
+        "worker thread blocks until released), seeded random key-level sessions in emacs mode (1-4 prompts on one "
+        "PromptSession, numeric arguments incl. 0 and negative, accept_default, multiline prompts, Esc-Enter, c-o, "
+        "yank-nth/last-arg with and without argument, validations finishing between keys) and in vi mode "
+        "(Esc/i/a, k/j with counts, nG, Enter in both modes, multiline); a case is non-trivial when the history is "
+        "non-empty and it contains a history navigation / yank / operate-and-get-next op, or when a validation in "
+        "flight finishes in it")
 EXHAUSTIVE = True
-EXHAUSTIVE_SCOPE = {"quick": "histories <= 2 entries over {a,ab,b,a\\nb}, typed prefix {'',a,ab}, search on/off, all op pairs from 17 ops",
-                    "thorough": "histories <= 3 entries over {a,ab,b,a\\nb}, typed prefix {'',a,ab}, search on/off, all op pairs from 17 ops"}
-TRUSTED = ["harness/c14.py compares (working_index, cursor, validation_state, history_search_text, preferred_column, "
-           "loader flags, all working lines, History.get_strings(), InMemoryHistory._storage, pending loader items, "
-           "return value / accept-handler argument) after every op",
-           "Ptk/Model/C14.lean is a hand translation of the anchored Buffer/History methods (correspondence-checked)",
+EXHAUSTIVE_SCOPE = {"quick": "histories <= 2 entries over {a,ab,b,a\\nb}, typed prefix {'',a,ab}, search on/off, all op pairs "
+                             "from 17 ops; partial loads: all op pairs from 12 ops; async validation: all op triples "
+                             "from 12 ops x 2 histories x 3 starting points; yank: all op triples from 7 ops x 21 "
+                             "histories; word splitter: all strings over 6 symbols up to length 5",
+                    "thorough": "histories <= 3 entries, otherwise as quick; async validation: all op 4-tuples; word "
+                                "splitter: length 6"}
+TRUSTED = ["harness/c14.py compares (working_index, cursor, validation_state, validation_error position, "
+           "history_search_text, preferred_column, loader flags, number of validator tasks not started yet, the "
+           "`running` flag of _only_one_at_a_time together with the document the validation in flight was started "
+           "with, validate_while_typing, registered operate-and-get-next callables, yank_nth_arg_state, all working "
+           "lines, History.get_strings(), InMemoryHistory._storage, pending loader items, return value / "
+           "accept-handler argument) after every op",
+           "Ptk/Model/C14.lean is a hand translation of the anchored Buffer/History/Validator/PromptSession code "
+           "(correspondence-checked)",
            "the gated History.load() used for interleaving is a subclass override in the harness (same protocol as "
-           "History.load: snapshot of the loaded strings, newest first, but awaiting between items)"]
+           "History.load: snapshot of the loaded strings, newest first, but awaiting between items)",
+           "the gated validator (validate_async awaits a harness event) and the HApp subclass that holds back "
+           "_async_validator() tasks until the schedule starts them are harness code; the real ThreadedValidator "
+           "family uses the unmodified class with an inner validator that blocks its worker thread",
+           "harness/gen_c14.py reads the key bindings, the complete_while_typing filter, the word pattern and the "
+           "end-of-history count from the live objects / the AST of the current tree"]
 ASSUMPTIONS = ["validators are functions of the text only (scripted family: needle + error position rule)",
-               "asyncio single-threaded atomicity between awaits; a synchronous validator (validate_async runs in one step)",
-               "InMemoryHistory semantics for storage; History.load() yields a snapshot newest-first"]
+               "asyncio single-threaded atomicity between awaits; a validator's validate_async is opaque between its "
+               "call and its completion (however often it suspends inside, the Buffer only sees 'in flight' and "
+               "'finished'; Validator.validate_async does not suspend at all)",
+               "InMemoryHistory semantics for storage; History.load() yields a snapshot newest-first",
+               "paste mode off (newline copies the margin); str.isspace / regex \\s are the runtime's classes "
+               "(parameters of the model, instantiated from Gen/PyChars)"]
 PARTIAL_SCOPE = ["accept_appends_once compares with the newest *stored* entry only once the history is loaded "
-                 "(known finding: duplicate appended when accepting before the first load)",
+                 "(known finding: duplicate appended when accepting before the first load; candidate repair in "
+                 "History.get_strings, not applied)",
                  "back_forth needs the current entry to pass the remembered filter (known finding: go_to_history / "
-                 "end-of-history can leave the buffer on an entry the filter rejects)",
-                 "completion menu, selection, undo stack, yank-nth-arg, operate-and-get-next are not modelled "
-                 "(auto_up/auto_down are modelled for complete_state = None and no selection)",
+                 "end-of-history can leave the buffer on an entry the filter rejects; the one-line candidate repair is "
+                 "modelled and proved to restore the round trip everywhere, but it makes Up/Down after a jump filter "
+                 "on the entry jumped to instead of the typed prefix, so it is not recommended as it stands)",
+                 "operate-and-get-next is modelled as it is: it accepts like accept-line and its set_working_index "
+                 "callable provably never selects the following entry (it runs before the loader has delivered "
+                 "anything) - outside the property's statement, reported as an observation",
+                 "completion menu, selection, undo stack, incremental search (apply_search / accept-search) are not "
+                 "modelled (auto_up/auto_down are modelled for complete_state = None and no selection); "
+                 "complete_while_typing is only pinned to be off under history search",
                  "go_to_history with a negative index is outside the model (vi nG always passes >= 0)",
                  "ThreadedHistory / FileHistory loaders are C13's subject; here the loader is any newest-first item "
-                 "stream delivered one item per step",
-                 "validators that inspect the cursor position are outside the model"]
+                 "stream delivered one item per step; the FileHistory file format is not modelled - a sampled "
+                 "family only checks that what accept stores is what a new FileHistory object reads back",
+                 "validators that inspect the cursor position, validators whose validate_async suspends more than "
+                 "once, and ValidationError.message are outside the model"]
 TECHNIQUE = "lean4-proof + differential correspondence + oracle"
+ANCHORS = ["src/prompt_toolkit/buffer.py", "src/prompt_toolkit/history.py", "src/prompt_toolkit/validation.py",
+           "src/prompt_toolkit/shortcuts/prompt.py", "src/prompt_toolkit/key_binding/bindings/named_commands.py",
+           "src/prompt_toolkit/key_binding/bindings/basic.py", "src/prompt_toolkit/key_binding/bindings/emacs.py",
+           "src/prompt_toolkit/key_binding/bindings/vi.py", "src/prompt_toolkit/document.py"]
+MODELLED = {
+    "src/prompt_toolkit/buffer.py": [
+        "Buffer.reset", "Buffer.load_history_if_not_yet_loaded", "Buffer.load_history_if_not_yet_loaded.load_history",
+        "Buffer._set_text", "Buffer._set_cursor_position", "Buffer.text", "Buffer.cursor_position",
+        "Buffer.working_index", "Buffer._text_changed", "Buffer._cursor_position_changed", "Buffer.document",
+        "Buffer.set_document", "Buffer.cursor_up", "Buffer.cursor_down", "Buffer.cursor_left", "Buffer.cursor_right",
+        "Buffer.auto_up", "Buffer.auto_down", "Buffer.history_forward", "Buffer.history_backward",
+        "Buffer.go_to_history", "Buffer._set_history_search", "Buffer._history_matches",
+        "Buffer.delete_before_cursor", "Buffer.insert_text", "Buffer.newline", "Buffer.yank_nth_arg",
+        "Buffer.yank_last_arg", "Buffer.validate", "Buffer._validate_async", "Buffer.append_to_history",
+        "Buffer._create_auto_validate_coroutine", "Buffer._create_auto_validate_coroutine.async_validator",
+        "Buffer.validate_and_handle", "_only_one_at_a_time", "_only_one_at_a_time.new_coroutine"],
+    "src/prompt_toolkit/history.py": [
+        "History.__init__", "History.load", "History.get_strings", "History.append_string",
+        "InMemoryHistory.__init__", "InMemoryHistory.load_history_strings", "InMemoryHistory.store_string"],
+    "src/prompt_toolkit/validation.py": [
+        "Validator.validate_async", "ThreadedValidator.validate", "ThreadedValidator.validate_async",
+        "DynamicValidator.validate", "DynamicValidator.validate_async"],
+    "src/prompt_toolkit/shortcuts/prompt.py": [
+        "PromptSession._add_pre_run_callables", "PromptSession._add_pre_run_callables.pre_run2",
+        "PromptSession._create_default_buffer.accept", "PromptSession._create_prompt_bindings._accept_input",
+        "PromptSession._create_prompt_bindings.do_accept"],
+    "src/prompt_toolkit/key_binding/bindings/named_commands.py": [
+        "accept_line", "backward_char", "forward_char", "backward_delete_char", "beginning_of_history",
+        "end_of_history", "beginning_of_line", "end_of_line", "next_history", "previous_history",
+        "operate_and_get_next", "operate_and_get_next.set_working_index", "self_insert", "yank_last_arg",
+        "yank_nth_arg"],
+    "src/prompt_toolkit/key_binding/bindings/basic.py": [
+        "load_basic_bindings._go_up", "load_basic_bindings._go_down", "load_basic_bindings._newline"],
+    "src/prompt_toolkit/key_binding/bindings/emacs.py": ["load_emacs_bindings._prev", "load_emacs_bindings._next"],
+    "src/prompt_toolkit/key_binding/bindings/vi.py": [
+        "load_vi_bindings._go_up", "load_vi_bindings._go_down2", "load_vi_bindings._up_in_navigation",
+        "load_vi_bindings._go_down", "load_vi_bindings._to_nth_history_line", "load_vi_bindings._back_to_navigation",
+        "load_vi_bindings._i", "load_vi_bindings._a"],
+    "src/prompt_toolkit/document.py": [
+        "Document.__eq__", "Document.current_line", "Document.cursor_position_row", "Document.cursor_position_col",
+        "Document.translate_row_col_to_index", "Document.leading_whitespace_in_current_line",
+        "Document.is_cursor_at_the_end_of_line", "Document.get_cursor_left_position",
+        "Document.get_cursor_right_position", "Document.get_cursor_up_position", "Document.get_cursor_down_position",
+        "Document.get_start_of_line_position", "Document.get_end_of_line_position"],
+    "src/prompt_toolkit/application/application.py": ["Application._pre_run"],
+    "src/prompt_toolkit/key_binding/key_processor.py": ["KeyProcessor._fix_vi_cursor_position"],
+}
 
 
 # ------------------------------------------------------------------ scripted validator
@@ -104,6 +204,80 @@ class ScriptedValidator(Validator):
         pos = verdict(self.spec, document.text)
         if pos is not None:
             raise ValidationError(cursor_position=pos, message="scripted")
+
+
+class GatedValidator(ScriptedValidator):
+    """A validator whose `validate_async` really suspends: it waits at a gate that the schedule of
+    the case opens (`vrel` / `valdone`); the verdict is the scripted one for the document it was
+    given.  `validate` (the synchronous path used by accept) does not wait."""
+
+    def __init__(self, spec):
+        super().__init__(spec)
+        self.waiting = []       # [(asyncio.Event, (text, cursor))] of validate_async calls in flight
+        self.calls = 0
+
+    async def validate_async(self, document):
+        ev = asyncio.Event()
+        entry = (ev, (document.text, document.cursor_position))
+        self.waiting.append(entry)
+        self.calls += 1
+        try:
+            await ev.wait()
+        finally:
+            self.waiting.remove(entry)
+        self.validate(document)
+
+    def in_flight(self):
+        return [d for _, d in self.waiting]
+
+    def release(self):
+        if self.waiting:
+            self.waiting[0][0].set()
+            return True
+        return False
+
+
+class BlockingInner(ScriptedValidator):
+    """Inner validator for a real `ThreadedValidator`: a call from a worker thread blocks on a
+    threading.Event until the schedule releases it; a call from the loop's own thread (the
+    synchronous accept path) answers at once."""
+
+    def __init__(self, spec):
+        super().__init__(spec)
+        self.lock = threading.Lock()
+        self.waiting = []       # [(threading.Event, (text, cursor))]
+        self.calls = 0
+        self.main = threading.get_ident()
+
+    def validate(self, document):
+        if threading.get_ident() != self.main:
+            ev = threading.Event()
+            entry = (ev, (document.text, document.cursor_position))
+            with self.lock:
+                self.waiting.append(entry)
+                self.calls += 1
+            try:
+                ev.wait(300)
+            finally:
+                with self.lock:
+                    self.waiting.remove(entry)
+        super().validate(document)
+
+    def in_flight(self):
+        with self.lock:
+            return [d for _, d in self.waiting]
+
+    def release(self):
+        with self.lock:
+            if self.waiting:
+                self.waiting[0][0].set()
+                return True
+        return False
+
+    def release_all(self):
+        with self.lock:
+            for ev, _ in self.waiting:
+                ev.set()
 
 
 class Abort(Exception):
@@ -161,10 +335,42 @@ def get_loop():
     return _LOOP
 
 
+class HApp(Application):
+    """Application whose `_async_validator()` background tasks can be held back: with `defer` set
+    each of them waits for its own start permit (op `vstart`), so that "created but not started"
+    is a state the schedule controls.  Everything else goes through Application unchanged."""
+
+    def __init__(self):
+        super().__init__(input=DummyInput(), output=DummyOutput())
+        self.defer = False
+        self.queue = []         # start permits of the held-back validator tasks, oldest first
+        self.coros = []         # the held-back coroutines (closed at the end of a case)
+
+    def create_background_task(self, coroutine):
+        if self.defer and "async_validator" in getattr(coroutine, "__qualname__", ""):
+            ev = asyncio.Event()
+            self.queue.append(ev)
+            self.coros.append(coroutine)
+
+            async def held():
+                try:
+                    await ev.wait()
+                except BaseException:
+                    coroutine.close()
+                    raise
+                finally:
+                    if ev in self.queue:
+                        self.queue.remove(ev)
+                await coroutine
+
+            return super().create_background_task(held())
+        return super().create_background_task(coroutine)
+
+
 def _get_app():
     global _APP
     if _APP is None:
-        _APP = Application(input=DummyInput(), output=DummyOutput())
+        _APP = HApp()
     return _APP
 
 
@@ -185,33 +391,81 @@ def enc_strs(items):
 VS = {ValidationState.UNKNOWN: "U", ValidationState.VALID: "V", ValidationState.INVALID: "I", None: "U"}
 
 
-def vpending(app):
+def vtasks(app):
+    """number of created `_async_validator()` tasks that did not get their first step yet"""
+    n = len(getattr(app, "queue", ()))
     for t in list(app._background_tasks):
         if t.done():
             continue
-        qn = getattr(t.get_coro(), "__qualname__", "")
-        if "async_validator" in qn:    # Buffer._create_auto_validate_coroutine.<locals>.async_validator
-            return True
-    return False
+        co = t.get_coro()
+        qn = getattr(co, "__qualname__", "")
+        if "async_validator" in qn and inspect.getcoroutinestate(co) == inspect.CORO_CREATED:
+            n += 1              # Buffer._create_auto_validate_coroutine.<locals>.async_validator
+    return n
 
 
-def snap(b, h, app, ehs, gated):
+def closure_var(fn, name):
+    return fn.__closure__[fn.__code__.co_freevars.index(name)].cell_contents
+
+
+def vrun(b, val):
+    """None, or the document the validation in flight was started with; the `running` flag of
+    `_only_one_at_a_time` must agree with what the validator sees"""
+    running = bool(closure_var(b._async_validator, "running"))
+    fl = val.in_flight() if hasattr(val, "in_flight") else []
+    if not running and not fl:
+        return None
+    if running and len(fl) == 1:
+        return fl[0]
+    return ("?running=%d,in-flight=%d" % (running, len(fl)), -1)
+
+
+def pre_run(app):
+    """the `operate-and-get-next` callables waiting in app.pre_run_callables: the working index each
+    of them was registered at (its `new_index` minus one)"""
+    out = []
+    for c in app.pre_run_callables:
+        if "set_working_index" in getattr(c, "__qualname__", ""):
+            out.append(closure_var(c, "new_index") - 1)
+    return out
+
+
+def storage_of(h):
+    """what is stored, oldest first: InMemoryHistory's list, or - for a FileHistory - what a NEW
+    FileHistory object reads back from the file"""
+    if isinstance(h, FileHistory):
+        return list(FileHistory(h.filename).load_history_strings())[::-1]
+    return list(h._storage)
+
+
+def snap(b, h, app, ehs, gated, val=None, vwt=None):
     if b._load_history_task is None or not gated:
         pending = []
     else:
         pending = h.snapshot[h.yielded:]
     return {"idx": b.working_index, "cur": b.cursor_position, "vstate": VS[b.validation_state],
+            "verr": None if b.validation_error is None else b.validation_error.cursor_position,
             "search": b.history_search_text, "pref": b.preferred_column,
-            "loading": b._load_history_task is not None, "vpending": vpending(app), "hloaded": h._loaded,
+            "loading": b._load_history_task is not None, "vtasks": vtasks(app), "vrun": vrun(b, val),
+            "vwt": bool(b.validate_while_typing()) if vwt is None else bool(vwt),
+            "hloaded": h._loaded, "prerun": pre_run(app),
+            "yank": (None if b.yank_nth_arg_state is None else
+                     (b.yank_nth_arg_state.history_position, b.yank_nth_arg_state.n,
+                      b.yank_nth_arg_state.previous_inserted_word)),
             "ehs": bool(ehs), "work": list(b._working_lines), "hist": list(h.get_strings()),
-            "storage": list(h._storage), "pending": list(pending),
+            "storage": storage_of(h), "pending": list(pending),
             "text": b._working_lines[b.working_index] if -len(b._working_lines) <= b.working_index < len(b._working_lines) else None}
 
 
 def snap_line(s, out="-"):
     pref = "N" if s["pref"] is None else str(s["pref"])
-    return (f"{s['idx']} {s['cur']} {s['vstate']} {enc_opt_str(s['search'])} {pref} {int(s['loading'])} "
-            f"{int(s['vpending'])} {int(s['hloaded'])} {int(s['ehs'])} W {enc_strs(s['work'])} H {enc_strs(s['hist'])} "
+    verr = "N" if s["verr"] is None else str(s["verr"])
+    run = "N" if s["vrun"] is None else "R:%s:%d" % (enc_str(s["vrun"][0]), s["vrun"][1])
+    return (f"{s['idx']} {s['cur']} {s['vstate']} {verr} {enc_opt_str(s['search'])} {pref} {int(s['loading'])} "
+            f"{s['vtasks']} {run} {int(s['hloaded'])} {int(s['ehs'])} {int(s['vwt'])} "
+            f"{' '.join([str(len(s['prerun']))] + [str(x) for x in s['prerun']])} "
+            f"{'N' if s['yank'] is None else 'Y:%d:%d:%s' % (s['yank'][0], s['yank'][1], enc_str(s['yank'][2]))} "
+            f"W {enc_strs(s['work'])} H {enc_strs(s['hist'])} "
             f"S {enc_strs(s['storage'])} P {enc_strs(s['pending'])} {out}")
 
 
@@ -222,8 +476,33 @@ class BufRig:
         self.app = app
         self.gated = bool(case.get("gated", True))
         self.flags = {"ehs": bool(case["ehs"]), "vwt": bool(case["vwt"]), "keep": False}
-        self.h = (GatedHistory if self.gated else InMemoryHistory)(list(case["hist"]))
-        self.val = ScriptedValidator(list(case["val"]))
+        self.tmp = None
+        if case.get("hkind") == "file":
+            # a FileHistory on a scratch file that already contains the entries (written by another
+            # FileHistory object); the loader is the plain History.load
+            import tempfile
+            fd, self.tmp = tempfile.mkstemp(prefix="c14hist")
+            os.close(fd)
+            h0 = FileHistory(self.tmp)
+            for x in case["hist"]:
+                h0.store_string(x)
+            self.h = FileHistory(self.tmp)
+            self.gated = False
+        else:
+            self.h = (GatedHistory if self.gated else InMemoryHistory)(list(case["hist"]))
+        # vasync: 0 = Validator.validate_async (inline), 1 = gated coroutine, 2 = real ThreadedValidator
+        self.vasync = int(case.get("vasync", 0))
+        self.manual = case.get("sched") == "manual"
+        app.defer = self.manual
+        del app.queue[:]
+        if self.vasync == 2:
+            self.inner = BlockingInner(list(case["val"]))
+            self.val = ThreadedValidator(self.inner)
+            self.val.in_flight = self.inner.in_flight
+        elif self.vasync == 1:
+            self.inner = self.val = GatedValidator(list(case["val"]))
+        else:
+            self.inner = self.val = ScriptedValidator(list(case["val"]))
         self.accepted = []
         self.b = Buffer(history=self.h, validator=self.val,
                         enable_history_search=Condition(lambda: self.flags["ehs"]),
@@ -235,7 +514,27 @@ class BufRig:
         return self.flags["keep"]
 
     def snap(self):
-        return snap(self.b, self.h, self.app, self.flags["ehs"], self.gated)
+        return snap(self.b, self.h, self.app, self.flags["ehs"], self.gated, self.val, self.flags["vwt"])
+
+    def running(self):
+        return bool(closure_var(self.b._async_validator, "running"))
+
+    async def quiesce(self, calls_before=None):
+        """let the loop run until nothing is left to do; with a ThreadedValidator also wait for the
+        worker thread: either the validation coroutine has ended or it is blocked in the inner
+        validator again"""
+        await spin(6)
+        if self.vasync == 2:
+            for _ in range(200000):
+                fl = self.inner.in_flight()
+                if not self.running() and not fl:
+                    break
+                if self.running() and fl and (calls_before is None or self.inner.calls > calls_before):
+                    break
+                await asyncio.sleep(0.001)
+            else:
+                raise RuntimeError("threaded validator did not settle")
+            await spin(6)
 
     async def apply(self, op):
         """apply one op to the real Buffer; return the out token"""
@@ -265,6 +564,15 @@ class BufRig:
         elif k == "endhist":
             b.history_forward(count=10 ** 100)
             b.go_to_history(len(b._working_lines) - 1)
+        elif k == "gotofix":
+            # go_to_history with the candidate repair applied from outside (the jump forgets the prefix)
+            b.go_to_history(op[1])
+            if op[1] < len(b._working_lines):
+                b.history_search_text = None
+        elif k == "endhistfix":
+            b.history_forward(count=10 ** 100)
+            b.go_to_history(len(b._working_lines) - 1)
+            b.history_search_text = None
         elif k in ("aup", "adown"):
             try:
                 (b.auto_up if k == "aup" else b.auto_down)(
@@ -273,10 +581,34 @@ class BufRig:
                 return "aerr"
         elif k == "ehs":
             self.flags["ehs"] = bool(op[1])
+        elif k == "yank":
+            (b.yank_last_arg if op[2] else b.yank_nth_arg)(op[1])
+        elif k == "vwt":
+            self.flags["vwt"] = bool(op[1])
+        elif k == "vstart":
+            # one held-back `_async_validator()` task gets its first step
+            if self.app.queue:
+                self.app.queue[0].set()
+            await self.quiesce()
+        elif k == "vrel":
+            # the validation in flight finishes
+            n = self.inner.calls if self.vasync == 2 else None
+            if self.vasync and self.inner.release():
+                if self.vasync == 2:
+                    # the released call must be gone before "settled" can be judged
+                    for _ in range(200000):
+                        if self.inner.calls > n or not self.running():
+                            break
+                        await asyncio.sleep(0.001)
+                await self.quiesce()
+            else:
+                await self.quiesce()
         elif k == "validate":
             return "b1" if b.validate(set_cursor=bool(op[1])) else "b0"
         elif k == "avalidate":
-            await spin(4)
+            for ev in list(self.app.queue):
+                ev.set()
+            await self.quiesce()
         elif k == "accept":
             self.flags["keep"] = bool(op[1])
             n = len(self.accepted)
@@ -288,6 +620,8 @@ class BufRig:
             b.append_to_history()
         elif k == "reset":
             b.reset(Document(op[1], op[2]))
+        elif k == "reseta":
+            b.reset(Document(op[1], op[2]), append_to_history=True)
         elif k == "startload":
             b.load_history_if_not_yet_loaded()
             await spin(4)
@@ -309,7 +643,8 @@ class BufRig:
 
 def init_lines(case):
     hs = " ".join(enc_str(x) for x in case["hist"])
-    return [("init %d %d %s" % (case["ehs"], case["vwt"], hs)).rstrip(),
+    return [("init %d %d %d %d %s" % (case["ehs"], case["vwt"], 1 if case.get("vasync") else 0,
+                                      1 if case.get("ml") else 0, hs)).rstrip(),
             "val %d %s %d %d" % (case["val"][0], enc_str(case["val"][1]), case["val"][2], case["val"][3])]
 
 
@@ -317,14 +652,19 @@ def op_line(op):
     k = op[0]
     if k in ("ins", "text"):
         return f"{k} {enc_str(op[1])}"
-    if k == "reset":
-        return f"reset {enc_str(op[1])} {op[2]}"
+    if k in ("reset", "reseta"):
+        return f"{k} {enc_str(op[1])} {op[2]}"
+    if k == "yank":
+        return f"yank {'N' if op[1] is None else op[1]} {int(bool(op[2]))}"
     return " ".join(str(int(x)) if isinstance(x, bool) else str(x) for x in op)
 
 
 def buf_model_lines(case):
     out = init_lines(case)
     gated = case.get("gated", True)
+    # natural scheduling: every op that lets the loop turn also gives the created validator tasks
+    # their first step; manual scheduling (`sched: manual`): they wait for `vstart` / `avalidate`
+    turn = "show" if case.get("sched") == "manual" else "avalidate"
     for op in case["ops"]:
         if op[0] == "startload":
             # the loader's first step and the validator tasks run in the same turns of the loop:
@@ -332,9 +672,14 @@ def buf_model_lines(case):
             out.append("q startload")
             if not gated:
                 out.append("q loadall")
-            out.append("avalidate")
+            out.append(turn)
         elif op[0] == "loadone":
             out.append("q loadone")
+            out.append(turn)
+        elif op[0] == "vrel" and turn == "avalidate":
+            out.append("q vrel")
+            out.append(turn)
+        elif op[0] == "vstart" and turn == "avalidate":
             out.append("avalidate")
         else:
             out.append(op_line(op))
@@ -352,11 +697,23 @@ async def buf_trace(case, app):
             o = await rig.apply(op)
             trace.append((op, before, rig.snap(), o))
     finally:
+        if rig.vasync == 2:
+            rig.inner.release_all()
         for t in list(app._background_tasks):
             t.cancel()
         if rig.b._load_history_task is not None:
             rig.b._load_history_task.cancel()
         await spin(3)
+        app.defer = False
+        del app.queue[:]
+        for co in app.coros:
+            co.close()
+        del app.coros[:]
+        if rig.tmp:
+            try:
+                os.unlink(rig.tmp)
+            except OSError:
+                pass
     return trace
 
 
@@ -373,6 +730,9 @@ def buf_lines_from_trace(case, trace):
         elif op[0] == "loadone":
             out.append("-")
             out.append(snap_line(after))
+        elif op[0] == "vrel" and case.get("sched") != "manual":
+            out.append("-")
+            out.append(snap_line(after))
         else:
             out.append(snap_line(after, o))
     return out
@@ -383,15 +743,24 @@ KEYSEQ = {
     "backspace": "\x7f", "left": "\x1b[D", "right": "\x1b[C", "home": "\x01", "end": "\x05",
     "up": "\x1b[A", "down": "\x1b[B", "c-p": "\x10", "c-n": "\x0e",
     "prevhist": "\x1b[1;5A", "nexthist": "\x1b[1;5B", "pgup": "\x1b[5~", "pgdn": "\x1b[6~",
-    "beginhist": "\x1b<", "endhist": "\x1b>", "enter": "\r",
+    "beginhist": "\x1b<", "endhist": "\x1b>", "enter": "\r", "escenter": "\x1b\r", "c-o": "\x0f",
 }
 ARG_KEYS = ("up", "down", "c-p", "prevhist", "nexthist")
+
+
+def arg_prefix(a):
+    if a < 0:
+        return "\x1b-" + ("" if a == -1 else "".join("\x1b" + d for d in str(-a)))
+    return "".join("\x1b" + d for d in str(a))
 
 
 def key_bytes(key):
     name = key[0]
     if name == "char":
         return key[1]
+    if name in ("yanknth", "yanklast"):
+        pre = "" if key[1] is None else arg_prefix(key[1])
+        return pre + ("\x1b\x19" if name == "yanknth" else "\x1b." if len(key) < 3 or not key[2] else "\x1b_")
     pre = ""
     if name in ARG_KEYS and len(key) > 1 and key[1] != 1:
         a = key[1]
@@ -408,6 +777,10 @@ def key_bytes(key):
 
 def key_model_line(key):
     name = key[0]
+    if name == "valdone":
+        return "key valdone"
+    if name in ("yanknth", "yanklast"):
+        return f"key {name} {'N' if key[1] is None else key[1]}"
     if name == "char":
         return "key char " + enc_str(key[1])
     if name in ARG_KEYS:
@@ -430,6 +803,8 @@ def vi_key_bytes(key):
 
 def vi_key_model_line(key):
     name = key[0]
+    if name == "valdone":
+        return "vkey valdone"
     if name == "char":
         return "vkey char " + enc_str(key[1])
     if name in ("k", "j", "G", "up", "down"):
@@ -458,7 +833,7 @@ async def settle(task, n=8):
 
 async def finish(task):
     try:
-        return await asyncio.wait_for(task, 3)
+        return await asyncio.wait_for(task, 40)     # generous: a loaded machine must not look like a hang
     except asyncio.TimeoutError:
         task.cancel()
         raise
@@ -475,7 +850,7 @@ async def sess_trace(case):
         if t is not None and not t.done():
             t.cancel()
             try:
-                await asyncio.wait_for(t, 2)
+                await asyncio.wait_for(t, 20)
             except BaseException:
                 pass
         del _ERRORS[:]
@@ -486,10 +861,12 @@ async def sess_trace1(case, holder):
     vi = case["kind"] == "vi"
     with create_pipe_input() as inp:
         h = InMemoryHistory(list(case["hist"]))
+        val = (GatedValidator if case.get("vasync") else ScriptedValidator)(list(case["val"]))
         session = PromptSession(history=h, input=inp, output=DummyOutput(),
-                                validator=ScriptedValidator(list(case["val"])),
+                                validator=val,
                                 enable_history_search=bool(case["ehs"]),
                                 validate_while_typing=bool(case["vwt"]), interrupt_exception=Abort,
+                                multiline=bool(case.get("ml")),
                                 editing_mode=EditingMode.VI if vi else EditingMode.EMACS)
         b, app = session.default_buffer, session.app
         if vi:
@@ -502,7 +879,7 @@ async def sess_trace1(case, holder):
             return "1 " if app.vi_state.input_mode == InputMode.NAVIGATION else "0 "
 
         def sn():
-            return snap(b, h, app, case["ehs"], False)
+            return snap(b, h, app, case["ehs"], False, val, case["vwt"])
 
         l0 = snap_line(sn())
         lines += [l0, l0]
@@ -544,18 +921,32 @@ async def sess_trace1(case, holder):
                     lines.append("after-accept")
                     continue
                 before = sn()
-                inp.send_text(vi_key_bytes(key) if vi else key_bytes(key))
+                before_nav = vi and navflag().startswith("1")
+                if key[0] == "valdone":
+                    # not a key: the validation in flight finishes
+                    val.release()
+                else:
+                    inp.send_text(vi_key_bytes(key) if vi else key_bytes(key))
                 await settle(task, 12 if vi else 10)
                 check_errors()
                 nv = navflag() if vi else ""
-                if key[0] == "enter" and (task.done() or app.is_done):
+                # the accepting keys: Enter (in a multiline prompt only from vi navigation mode), Esc Enter
+                was_nav = before_nav if vi else False
+                accepting = (key[0] in ("escenter", "c-o") or
+                             (key[0] == "enter" and (not case.get("ml") or was_nav)))
+                if not accepting and not (task.done() or app.is_done):
+                    after = sn()
+                    lines.append(snap_line(after, nv + "-"))
+                    events.append({"ev": "key", "key": key, "before": before, "after": after})
+                    continue
+                if task.done() or app.is_done:
                     res = await finish(task)
                     done = True
                     after = sn()
                     lines.append(snap_line(after, nv + "acc:" + enc_str(res)))
                     events.append({"ev": "accept", "text": before["text"], "result": res, "before": before,
-                                   "after": after, "site": "accept-line"})
-                elif key[0] == "enter":
+                                   "after": after, "site": "accept-line", "accepting": accepting, "key": key})
+                elif accepting:
                     after = sn()
                     lines.append(snap_line(after, nv + "rej"))
                     events.append({"ev": "reject", "text": before["text"], "before": before, "after": after,
@@ -607,16 +998,27 @@ def run_real1(case):
                 return await buf_trace(case, app)
 
         return loop.run_until_complete(go())
-    return loop.run_until_complete(asyncio.wait_for(sess_trace(case), 12))
+    return loop.run_until_complete(asyncio.wait_for(sess_trace(case), 200))
+
+
+def real_words(text):
+    """`words` of Buffer.yank_nth_arg for one history line, computed with the real pattern object"""
+    import prompt_toolkit.buffer as pb
+    words = [w.strip() for w in pb._QUOTED_WORDS_RE.split(text)]
+    return [w for w in words if w]
 
 
 def model_lines(case):
+    if case["kind"] == "words":
+        return ["words " + enc_str(t) for t in case["texts"]]
     if case["kind"] == "buf":
         return buf_model_lines(case)
     return sess_model_lines(case)
 
 
 def impl_lines(case):
+    if case["kind"] == "words":
+        return [enc_strs(real_words(t)) for t in case["texts"]]
     r = run_real(case)
     if case["kind"] == "buf":
         return buf_lines_from_trace(case, r)
@@ -642,7 +1044,174 @@ def exhaustive_cases(maxn):
                                    "val": [1, "x", 1, 1], "ops": pre + [o1, o2]}
 
 
-RT = ["", "a", "ab", "b", "a\nb", "ab\nc", "abc", "ba", "é", "世a", "x", "ax", "a b", " a", "b "]
+# --- the loader racing with navigation and edits: the history is only partly loaded
+LOAD_OPS = [["hb", 1], ["hf", 1], ["aup", 1, 0], ["adown", 1, 0], ["ins", "x"], ["delb", 1], ["goto", 0],
+            ["endhist"], ["accept", 1], ["accept", 0], ["loadone"], ["hb", 2]]
+
+
+def partial_load_cases(maxn):
+    """j < n of the n history entries delivered, then every pair of ops (loader item included)"""
+    for n in range(1, maxn + 1):
+        for hist in itertools.product(HALPHA, repeat=n):
+            for j in range(n):
+                for typed in (("", "a") if n < 2 else ("a",)):
+                    for ehs in (0, 1):
+                        pre = [["startload"]] + [["loadone"]] * j + ([["ins", typed]] if typed else [])
+                        for o1 in LOAD_OPS:
+                            for o2 in LOAD_OPS:
+                                yield {"kind": "buf", "hist": list(hist), "ehs": ehs, "vwt": 0, "gated": True,
+                                       "val": [1, "x", 1, 1], "ops": pre + [list(o1), list(o2), ["loadone"]]}
+
+
+# --- FileHistory: what is appended must be what a new FileHistory object reads back
+FTEXTS = ["a", "a\nb", "a\n", "\nb", "a\n\nb", "a\rb", "a\r\nb", "a\x0bb", "a\x0cb", "a\x1cb", "a\x85b", "a\u2028b",
+          "+a", "#a", "# 2024-01-01 00:00:00.000000", " a ", "é世", "a\tb", "x", "\n", "\r"]
+
+
+def file_history_cases(rng, n):
+    for t in FTEXTS:
+        for keep in (0, 1):
+            yield {"kind": "buf", "hkind": "file", "hist": ["q"], "ehs": 0, "vwt": 0, "gated": False,
+                   "val": [1, "x", 1, 1], "ops": [["startload"], ["text", t], ["accept", keep], ["startload"], ["hb", 1]]}
+    for _ in range(n):
+        hist = [rng.choice(FTEXTS) for _ in range(rng.randrange(0, 4))]
+        hist = [h for h in hist if h]
+        ops = [["startload"]]
+        for _ in range(rng.randrange(1, 5)):
+            ops.append(["text", rng.choice(FTEXTS)])
+            if rng.random() < 0.3:
+                ops.append(["ins", rng.choice(["\n", "\r", "a", "\x0c"])])
+            ops.append(["accept", rng.randrange(2)])
+            if rng.random() < 0.7:
+                ops.append(["startload"])
+                ops.append(["hb", rng.choice([1, 2])])
+        yield {"kind": "buf", "hkind": "file", "hist": hist, "ehs": 0, "vwt": 0, "gated": False,
+               "val": [1, "x", 1, 1], "ops": ops}
+
+
+# --- the candidate repair of go_to_history (the jump forgets the search prefix), applied from outside
+FIX_OPS = [["hb", 1], ["hf", 1], ["ins", "x"], ["gotofix", 0], ["endhistfix"], ["aup", 1, 0], ["gotofix", 1]]
+
+
+def gotofix_cases(maxn):
+    for n in range(1, maxn + 1):
+        for hist in itertools.product(HALPHA, repeat=n):
+            for typed in (("", "a") if n < 2 else ("a",)):
+                pre = [["startload"]] + [["loadone"]] * n + ([["ins", typed]] if typed else [])
+                for seq in itertools.product(FIX_OPS, repeat=3):
+                    yield {"kind": "buf", "hist": list(hist), "ehs": 1, "vwt": 0, "gated": True,
+                           "val": [0, "x", 0, 0], "ops": pre + [list(o) for o in seq] + [["hb", 1], ["hf", 1]]}
+
+
+# --- yank-nth-arg / yank-last-arg: reading the history
+YLINES = ["a b c", "x 'q r' y", "one", ' "u v"  w ']
+Y_OPS = [["yank", None, 0], ["yank", None, 1], ["yank", 0, 0], ["yank", 2, 1], ["yank", -1, 0], ["ins", "z"],
+         ["left"]]
+WALPHA = ["a", " ", '"', "'", "\n", "b"]
+WEXTRA = ["\t", "\x0b", "\x0c", "\r", "\x1c", "\x1f", "\x85", "\xa0", "\u2003", "\u200b", "\u3000", "é", "\\"]
+
+
+def yank_exhaustive_cases():
+    hists = [[]] + [[a] for a in YLINES] + [[a, b] for a in YLINES for b in YLINES]
+    for hist in hists:
+        pre = [["startload"]] + [["loadone"]] * len(hist)
+        for seq in itertools.product(Y_OPS, repeat=3):
+            yield {"kind": "buf", "hist": list(hist), "ehs": 0, "vwt": 0, "gated": True, "val": [0, "x", 0, 0],
+                   "ops": pre + [list(o) for o in seq]}
+
+
+def words_cases(maxlen, rng, nrand):
+    """the word splitter of yank-nth-arg against the real `_QUOTED_WORDS_RE`: all strings over
+    {a, space, double quote, single quote, line break, b} up to maxlen, then random ones with the
+    other whitespace characters of the runtime"""
+    batch = []
+    for n in range(maxlen + 1):
+        for t in itertools.product(WALPHA, repeat=n):
+            batch.append("".join(t))
+            if len(batch) == 400:
+                yield {"kind": "words", "texts": batch}
+                batch = []
+    for _ in range(nrand):
+        batch.append("".join(rng.choice(WALPHA + WEXTRA) for _ in range(rng.randrange(0, 14))))
+        if len(batch) == 400:
+            yield {"kind": "words", "texts": batch}
+            batch = []
+    if batch:
+        yield {"kind": "words", "texts": batch}
+
+
+def rand_yank(rng):
+    return ["yank", rng.choice([None, None, None, 0, 1, 2, -1, -2, 3, 7]), rng.randrange(2)]
+
+
+# --- asynchronous validation: every schedule of edits / validator progress / accept
+AV_OPS = [["ins", "x"], ["ins", "a"], ["delb", 1], ["left"], ["vstart"], ["vrel"], ["accept", 1], ["accept", 0],
+          ["validate", 1], ["hb", 1], ["vwt", 0], ["avalidate"]]
+AV_PRE = [[], [["ins", "a"]], [["ins", "a"], ["vstart"]]]
+
+
+def async_exhaustive_cases(n):
+    """gated validator (rejects texts containing 'x'), validate_while_typing on, manual scheduling:
+    all op sequences of length n after: nothing typed / 'a' typed, its validator task created /
+    that task started and in flight"""
+    for hist in ([], ["ab"]):
+        for pre in AV_PRE:
+            for seq in itertools.product(AV_OPS, repeat=n):
+                yield {"kind": "buf", "hist": list(hist), "ehs": 0, "vwt": 1, "gated": False, "vasync": 1,
+                       "sched": "manual", "val": [1, "x", 1, 1],
+                       "ops": [["startload"]] + [list(o) for o in pre] + [list(o) for o in seq]}
+
+
+def rand_async_ops(rng, n):
+    ops = []
+    for _ in range(n):
+        r = rng.randrange(100)
+        if r < 22:
+            ops.append(["ins", rng.choice(["x", "a", "b", "x", "\n"])])
+        elif r < 30:
+            ops.append(["delb", rng.choice([1, 1, 2])])
+        elif r < 36:
+            ops.append([rng.choice(["left", "right", "home", "end"])])
+        elif r < 52:
+            ops.append(["vstart"])
+        elif r < 68:
+            ops.append(["vrel"])
+        elif r < 78:
+            ops.append(["accept", rng.randrange(2)])
+        elif r < 82:
+            ops.append(["validate", rng.randrange(2)])
+        elif r < 88:
+            ops.append([rng.choice(["hb", "hf"]), rng.choice([1, 1, 2])])
+        elif r < 91:
+            ops.append(["vwt", rng.randrange(2)])
+        elif r < 94:
+            ops.append(["avalidate"])
+        elif r < 96:
+            t = rand_text(rng)
+            ops.append([rng.choice(["reset", "reseta"]), t, rng.randrange(0, len(t) + 1)])
+        elif r < 98:
+            ops.append(["text", rand_text(rng)])
+        else:
+            ops.append(["cur", rng.randrange(-1, 5)])
+    return ops
+
+
+def rand_async_case(rng, threaded=False):
+    """random schedules with a validator that really suspends (gated coroutine, or a real
+    ThreadedValidator whose worker thread blocks until released)"""
+    n = rng.choice([0, 1, 2, 3])
+    hist = [rng.choice(RT[1:]) for _ in range(n)]
+    val = rand_val(rng)
+    val[0] = 1
+    if val[1] == "":
+        val[1] = "x"
+    ops = [["startload"]] if rng.random() < 0.8 else []
+    ops += rand_async_ops(rng, rng.randrange(3, 9 if threaded else 25))
+    return {"kind": "buf", "hist": hist, "ehs": rng.randrange(2), "vwt": rng.choice([1, 1, 1, 0]), "gated": False,
+            "vasync": 2 if threaded else 1, "sched": "manual", "val": val, "ops": ops}
+
+
+RT = ["", "a", "ab", "b", "a\nb", "ab\nc", "abc", "ba", "é", "世a", "x", "ax", "a b", " a", "b ", "a 'b c' d"]
 
 
 def rand_text(rng):
@@ -686,13 +1255,15 @@ def rand_buf_op(rng):
         return ["validate", rng.randrange(2)]
     if k < 85:
         return ["avalidate"]
-    if k < 91:
+    if k < 89:
         return ["accept", rng.randrange(2)]
+    if k < 91:
+        return rand_yank(rng)
     if k < 92:
         return ["append"]
     if k < 94:
         t = rand_text(rng)
-        return ["reset", t, rng.randrange(0, len(t) + 1)]
+        return [rng.choice(["reset", "reset", "reseta"]), t, rng.randrange(0, len(t) + 1)]
     if k < 96:
         return ["startload"]
     return ["loadone"]
@@ -715,13 +1286,22 @@ def rand_buf_case(rng):
         if op[0] in ("hb", "hf") and rng.random() < 0.5:
             # back k / forward k pairs for the oracle's round-trip clause
             ops.append(["hf" if op[0] == "hb" else "hb", op[1]])
-        if op[0] == "reset" or (op[0] == "accept" and op[1] == 0):
+        if op[0] in ("reset", "reseta") or (op[0] == "accept" and op[1] == 0):
             if rng.random() < 0.8:
                 ops.append(["startload"])
                 if gated:
                     ops += [["loadone"]] * rng.randrange(0, n + 3)
-    return {"kind": "buf", "hist": hist, "ehs": rng.randrange(2), "vwt": rng.choice([0, 0, 1]),
+    case = {"kind": "buf", "hist": hist, "ehs": rng.randrange(2), "vwt": rng.choice([0, 0, 1]),
             "gated": gated, "val": rand_val(rng), "ops": ops}
+    if rng.random() < 0.35:
+        # the same kind of session with a validator that suspends, under the loop's own scheduling:
+        # every op that lets the loop turn also starts the created validator tasks
+        case["vasync"] = 1
+        case["vwt"] = rng.choice([0, 1, 1])
+        for i in range(len(ops) - 1, -1, -1):
+            if rng.random() < 0.15:
+                ops.insert(i, rng.choice([["vrel"], ["vrel"], ["avalidate"], ["vwt", rng.randrange(2)]]))
+    return case
 
 
 def rand_key(rng):
@@ -748,9 +1328,26 @@ def rand_key(rng):
         return ["char", rng.choice(["a", "b", "x", "c", "é", " "])]
     if k < 87:
         return ["backspace"]
-    if k < 95:
+    if k < 91:
         return [rng.choice(["left", "right", "home", "end"])]
+    if k < 94:
+        return [rng.choice(["yanknth", "yanklast"]), rng.choice([None, None, None, 0, 1, 2, -1, 3]), rng.randrange(2)]
+    if k < 97:
+        return ["c-o"]
     return ["enter"]
+
+
+def sprinkle_valdone(rng, case):
+    """make the session's validator one that suspends and let validations finish at random
+    points between the keys"""
+    case["vasync"] = 1
+    case["vwt"] = rng.choice([1, 1, 1, 0])
+    for p in case["prompts"]:
+        keys = p["keys"]
+        for i in range(len(keys), -1, -1):
+            if rng.random() < 0.25:
+                keys.insert(i, ["valdone"])
+    return case
 
 
 def rand_sess_case(rng):
@@ -759,6 +1356,7 @@ def rand_sess_case(rng):
     if n >= 2 and rng.random() < 0.4:
         hist[rng.randrange(n)] = hist[rng.randrange(n)]
     prompts = []
+    ml = rng.random() < 0.3
     for _ in range(rng.randrange(1, 5)):
         if rng.random() < 0.12:
             d = (hist[-1] if hist else "a") if rng.random() < 0.5 else rand_text(rng)
@@ -770,14 +1368,21 @@ def rand_sess_case(rng):
             keys.append(key)
             if key[0] in ("prevhist", "nexthist") and rng.random() < 0.4:
                 keys.append(["nexthist" if key[0] == "prevhist" else "prevhist", key[1], 0])
+        if ml:
+            for i in range(len(keys), -1, -1):
+                if rng.random() < 0.12:
+                    keys.insert(i, rng.choice([["enter"], ["char", " "]]))
         if rng.random() < 0.9:
-            keys.append(["enter"])
+            keys.append(["escenter"] if ml or rng.random() < 0.15 else ["enter"])
         prompts.append({"default": rng.choice(["", "", "", "a", "ab", "a\nb"]), "keys": keys})
     val = rand_val(rng)
     if val[0] == 1 and val[1] == "":
         val[1] = "x"
-    return {"kind": "sess", "hist": hist, "ehs": rng.randrange(2), "vwt": rng.choice([0, 1]), "val": val,
+    case = {"kind": "sess", "ml": int(ml), "hist": hist, "ehs": rng.randrange(2), "vwt": rng.choice([0, 1]), "val": val,
             "prompts": prompts}
+    if rng.random() < 0.4:
+        sprinkle_valdone(rng, case)
+    return case
 
 
 def rand_vi_case(rng):
@@ -786,6 +1391,7 @@ def rand_vi_case(rng):
     if n >= 2 and rng.random() < 0.4:
         hist[rng.randrange(n)] = hist[rng.randrange(n)]
     prompts = []
+    ml = rng.random() < 0.3
     for _ in range(rng.randrange(1, 4)):
         nav = False
         keys = []
@@ -805,6 +1411,8 @@ def rand_vi_case(rng):
                     keys.append(["escape"]); nav = True
                 else:
                     keys.append(["enter"])
+                    if ml and rng.random() < 0.5:
+                        keys.append(["char", " "])
             else:
                 if r < 30:
                     keys.append(["k", arg])
@@ -825,19 +1433,34 @@ def rand_vi_case(rng):
                 else:
                     keys.append(["enter"])
         if rng.random() < 0.9:
+            if ml and not nav:
+                keys.append(["escape"])
             keys.append(["enter"])
         prompts.append({"default": rng.choice(["", "", "", "a", "ab", "a\nb"]), "keys": keys})
     val = rand_val(rng)
     if val[0] == 1 and val[1] == "":
         val[1] = "x"
-    return {"kind": "vi", "hist": hist, "ehs": rng.randrange(2), "vwt": rng.choice([0, 1]), "val": val,
+    case = {"kind": "vi", "ml": int(ml), "hist": hist, "ehs": rng.randrange(2), "vwt": rng.choice([0, 1]), "val": val,
             "prompts": prompts}
+    if rng.random() < 0.4:
+        sprinkle_valdone(rng, case)
+    return case
 
 
-def cases(tier, rng):
+def _all_cases(tier, rng):
     maxn = 2 if tier == "quick" else 3
     yield from exhaustive_cases(maxn)
-    nbuf = 2500 if tier == "quick" else 60000
+    yield from partial_load_cases(maxn)
+    yield from file_history_cases(rng, 150 if tier == "quick" else 3000)
+    yield from gotofix_cases(2)
+    yield from yank_exhaustive_cases()
+    yield from words_cases(5 if tier == "quick" else 6, rng, 2000 if tier == "quick" else 60000)
+    yield from async_exhaustive_cases(3 if tier == "quick" else 4)
+    for _ in range(1500 if tier == "quick" else 30000):
+        yield rand_async_case(rng)
+    for _ in range(40 if tier == "quick" else 600):
+        yield rand_async_case(rng, threaded=True)
+    nbuf = 2500 if tier == "quick" else 45000
     for _ in range(nbuf):
         yield rand_buf_case(rng)
     nsess = 200 if tier == "quick" else 5000
@@ -848,15 +1471,38 @@ def cases(tier, rng):
         yield rand_vi_case(rng)
 
 
+def _expensive(case):
+    """whole PromptSessions, real worker threads, scratch files, batches of 400 strings: two orders
+    of magnitude dearer than a method-level case"""
+    return case["kind"] != "buf" or case.get("vasync") == 2 or case.get("hkind") == "file"
+
+
+def cases(tier, rng):
+    """all families; the expensive cases are spread evenly through the list (core evaluates the
+    list in consecutive chunks, one worker per chunk)"""
+    cheap, dear = [], []
+    for c in _all_cases(tier, rng):
+        (dear if _expensive(c) else cheap).append(c)
+    step = max(1, len(cheap) // (len(dear) + 1))
+    it = iter(dear)
+    for i, c in enumerate(cheap):
+        if i % step == 0:
+            e = next(it, None)
+            if e is not None:
+                yield e
+        yield c
+    yield from it
+
+
 # ------------------------------------------------------------------ oracle
 # The property restated over what the REAL objects show before / after every step
 # (written without reference to the Lean model).
-NAV_OPS = ("hb", "hf", "goto", "endhist", "aup", "adown", "left", "right", "home", "end", "cur", "ehs",
-           "validate", "avalidate")
-EDIT_OPS = ("ins", "delb", "text")
+NAV_OPS = ("hb", "hf", "goto", "endhist", "gotofix", "endhistfix", "aup", "adown", "left", "right", "home", "end", "cur", "ehs",
+           "validate", "avalidate", "vwt", "vstart", "vrel")
+EDIT_OPS = ("ins", "delb", "text", "yank")
 KEY_NAV = ("up", "down", "c-p", "c-n", "prevhist", "nexthist", "beginhist", "endhist", "left", "right", "home", "end",
-           "k", "j", "G", "escape", "i", "a")
-KEY_EDIT = ("char", "backspace")
+           "k", "j", "G", "escape", "i", "a", "valdone")
+KEY_EDIT = ("char", "backspace", "yanknth", "yanklast")
 STEP_NAV = ("hb", "hf", "aup", "adown", "up", "down", "c-p", "c-n", "prevhist", "nexthist")
 
 
@@ -914,7 +1560,7 @@ class PrefixTracker:
         return self.typed
 
 
-def takes_history_branch(name, before, count=1):
+def takes_history_branch(name, before, count=1, tracker=None):
     """auto_up / auto_down move inside a multi-line text when they can; a count of zero does
     nothing and a negative count goes the other way"""
     up, down = ("aup", "up", "c-p", "k"), ("adown", "down", "c-n", "j")
@@ -925,6 +1571,9 @@ def takes_history_branch(name, before, count=1):
         if go_up:
             return "\n" not in before["text"][:before["cur"]]
         return "\n" not in before["text"][before["cur"]:]
+    if name in ("gotofix", "endhistfix"):
+        tracker.text_changed() if tracker is not None else None
+        return False
     return name in ("hb", "hf", "prevhist", "nexthist", "endhist")
 
 
@@ -935,7 +1584,7 @@ def check_nav(V, site, name, before, after, desc, tracker, count=1):
               f"{desc}: {before['storage']!r}/{before['hist']!r} -> {after['storage']!r}/{after['hist']!r}")
     if after["work"] != before["work"]:
         V.add(site, "navigation changed a working copy", f"{desc}: {before['work']!r} -> {after['work']!r}")
-    if takes_history_branch(name, before, count):
+    if takes_history_branch(name, before, count, tracker):
         typed = tracker.history_step(before)
         if name != "endhist" and after["idx"] != before["idx"]:
             if typed is not None and not after["text"].startswith(typed):
@@ -945,6 +1594,14 @@ def check_nav(V, site, name, before, after, desc, tracker, count=1):
         if after["search"] != typed:
             V.add(site, "remembered search text is not the typed prefix",
                   f"{desc}: typed prefix={typed!r} Buffer.history_search_text={after['search']!r}")
+
+
+def yank_rewrote(name, before, after):
+    """a yank command that removed the previously yanked word and inserted one is an edit of the
+    text (and starts a new prefix search) even when the word it puts back is the same"""
+    if name not in ("yank", "yanknth", "yanklast"):
+        return False
+    return bool(before["yank"] and before["yank"][2]) and after["yank"] is not None and bool(before["hist"])
 
 
 def check_edit(V, site, before, after, desc):
@@ -1050,7 +1707,10 @@ def buf_oracle(case, trace):
                             "aup": "auto_up", "adown": "auto_down", "endhist": "end-of-history",
                             "accept": "validate_and_handle", "ins": "insert_text", "delb": "delete_before_cursor",
                             "text": "text", "loadone": "load_history", "startload": "load_history",
-                            "reset": "reset", "append": "append_to_history"}.get(k, k)
+                            "reset": "reset", "reseta": "reset(append_to_history=True)",
+                            "append": "append_to_history", "vstart": "_async_validator (first step)",
+                            "vrel": "_validate_async (validation finished)",
+                            "avalidate": "_async_validator (loop turn)"}.get(k, k)
         desc = f"op {i - 1} {op}"
         if not wf(V, site, after, desc):
             break
@@ -1061,7 +1721,7 @@ def buf_oracle(case, trace):
                 V.add(site, "validate() true although the validator fails", desc)
         elif k in EDIT_OPS:
             check_edit(V, site, before, after, desc)
-            if after["text"] != before["text"]:
+            if after["text"] != before["text"] or yank_rewrote(k, before, after):
                 tracker.text_changed()
         elif k == "startload":
             if after["storage"] != before["storage"] or after["work"] != before["work"] and not case.get("gated", True) is False:
@@ -1095,6 +1755,19 @@ def buf_oracle(case, trace):
             tracker.text_changed()
             if after["storage"] != before["storage"] or after["hist"] != before["hist"]:
                 V.add(site, "reset changed the stored history", desc)
+        elif k == "reseta":
+            tracker.text_changed()
+            text = before["text"]
+            newest = before["storage"][-1] if before["storage"] else None
+            want = before["storage"] + [text] if (text != "" and newest != text) else before["storage"]
+            if after["storage"] != want:
+                if text != "" and newest == text and not before["hloaded"]:
+                    V.add("Buffer.append_to_history", "history not loaded yet: duplicate of the newest entry appended",
+                          f"{desc}: reset(append_to_history=True) with text {text!r}, stored history "
+                          f"{before['storage']!r} -> {after['storage']!r}")
+                else:
+                    V.add(site, "reset(append_to_history=True) did not append exactly once",
+                          f"{desc}: text {text!r}, stored history {before['storage']!r} -> {after['storage']!r}")
         # round trips
         if k in ("hb", "hf") and i + 1 < len(trace):
             op2 = trace[i + 1][0]
@@ -1102,11 +1775,11 @@ def buf_oracle(case, trace):
                 check_round_trip(V, "Buffer.history_backward/forward", "back" if k == "hb" else "fwd",
                                  op[1], before, trace[i + 1][2], desc)
         # clean start of the next prompt
-        if k == "reset":
+        if k in ("reset", "reseta"):
             clean_default = op[1]
         elif k == "accept" and out.startswith("acc:") and not op[1]:
             clean_default = ""
-        elif k not in ("startload", "loadone", "avalidate", "ehs"):
+        elif k not in ("startload", "loadone", "avalidate", "ehs", "vwt", "vstart", "vrel"):
             clean_default = None
         if clean_default is not None and after["loading"] and not after["pending"] and k in ("startload", "loadone"):
             check_clean(V, "Buffer.reset + load_history", after, clean_default, desc)
@@ -1137,10 +1810,14 @@ def sess_oracle(case, events):
                 kk = e["key"]
                 check_nav(V, "key " + name, name, before, after, desc, tracker,
                           count=kk[1] if name in ("up", "down", "c-p", "k", "j") and len(kk) > 1 else 1)
-            elif name in KEY_EDIT:
+            elif name in KEY_EDIT or name == "enter":
+                # (Enter reaches this branch only in a multiline prompt, where it inserts a line break)
                 check_edit(V, "key " + name, before, after, desc)
-                if after["text"] != before["text"]:
+                if after["text"] != before["text"] or yank_rewrote(name, before, after):
                     tracker.text_changed()
+                if name == "enter" and not after["text"].startswith(before["text"][:before["cur"]] + "\n"):
+                    V.add("key enter", "multiline prompt: Enter did not insert a line break at the cursor",
+                          f"{desc}: {before['text']!r}@{before['cur']} -> {after['text']!r}")
             # round trip on consecutive prevhist k / nexthist k
             if name in ("prevhist", "nexthist") and n + 1 < len(events) and events[n + 1]["ev"] == "key":
                 k2 = events[n + 1]["key"]
@@ -1180,6 +1857,9 @@ def sess_oracle(case, events):
                 del b2
             else:
                 out = ("acc:" + enc_str(e["result"])) if ev == "accept" else "rej"
+                if ev == "accept" and e.get("accepting") is False:
+                    V.add("key " + str(e["key"][0]), "a key that is not an accept key returned from the prompt",
+                          f"{desc}: result {e['result']!r}")
                 check_accept(V, e["site"], spec, before, after, out, None, desc, vi_nav=bool(e.get("vi_nav")))
         elif ev == "abort":
             if after["storage"] != e["before"]["storage"]:
@@ -1189,6 +1869,8 @@ def sess_oracle(case, events):
 
 
 def oracle(case):
+    if case["kind"] == "words":
+        return []
     r = run_real(case)
     if case["kind"] == "buf":
         return buf_oracle(case, r)
@@ -1200,11 +1882,19 @@ def sample_view(case):
 
 
 def nontrivial(case):
+    if case["kind"] == "words":
+        return True
+    if case["kind"] == "buf" and case.get("vasync") and any(op[0] == "vrel" for op in case["ops"]):
+        return True         # a validation finishes while something else has happened
+    if case["kind"] != "buf" and case.get("vasync") and any(k[0] == "valdone" for p in case["prompts"] for k in p["keys"]):
+        return True
     if not case["hist"]:
         return False
     if case["kind"] == "buf":
-        return any(op[0] in ("hb", "hf", "aup", "adown", "goto", "endhist") for op in case["ops"])
-    return any(k[0] in ("up", "down", "c-p", "c-n", "prevhist", "nexthist", "beginhist", "endhist", "k", "j", "G")
+        return any(op[0] in ("hb", "hf", "aup", "adown", "goto", "endhist", "gotofix", "endhistfix", "yank")
+                   for op in case["ops"])
+    return any(k[0] in ("up", "down", "c-p", "c-n", "prevhist", "nexthist", "beginhist", "endhist", "k", "j", "G",
+                        "yanknth", "yanklast", "c-o")
                for p in case["prompts"] for k in p["keys"])
 
 
@@ -1212,6 +1902,9 @@ def distribution(cases):
     d = {"kind": {}, "hist_len": {}, "ops": {}}
     for c in cases:
         d["kind"][c["kind"]] = d["kind"].get(c["kind"], 0) + 1
+        if c["kind"] == "words":
+            d["ops"]["words"] = d["ops"].get("words", 0) + len(c["texts"])
+            continue
         n = str(len(c["hist"]))
         d["hist_len"][n] = d["hist_len"].get(n, 0) + 1
         if c["kind"] == "buf":
